@@ -33,12 +33,16 @@ type c11wCase struct {
 	Reqs []c11wReq `json:"reqs"`
 }
 
-var c11wValid = []string{"sendall", "cfgtri", "start", "stop", "trig", "lengths", "comment", "emptyparams", "bigcomment"}
+var c11wValid = []string{"starterr", "sendall", "cfgtri", "start", "stop", "trig", "lengths", "comment", "emptyparams", "bigcomment"}
 var c11wServable = []string{"nomethod", "noservice", "nodot", "strparam", "objparam", "fieldtype", "paramsobject", "paramsmissing", "paramsnull", "paramsnumber"}
 var c11wBroken = []string{"garbage", "methodnumber", "truncated"}
 
 func c11wGen(t *rapid.T) c11wCase {
 	var c c11wCase
+	if rapid.IntRange(0, 24).Draw(t, "selfend") == 0 {
+		// a source ends by itself and no request arrives before the server's next heartbeat
+		c.Reqs = append(c.Reqs, c11wReq{Kind: "starterr"}, c11wReq{Kind: "idle"})
+	}
 	n := rapid.IntRange(2, 9).Draw(t, "n")
 	for i := 0; i < n; i++ {
 		var r c11wReq
@@ -72,6 +76,10 @@ func c11wText(kind string, id int) string {
 		return env("SourceControl.Start", `["TRIANGLESOURCE"]`)
 	case "stop":
 		return env("SourceControl.Stop", `["dummy"]`)
+	case "starterr": // a source that ends by itself after a few blocks
+		return env("SourceControl.Start", `["ERRORINGSOURCE"]`)
+	case "idle": // nothing is sent for longer than the server's heartbeat period
+		return " "
 	case "trig":
 		return env("SourceControl.ConfigureTriggers", `[{"ChannelIndices":[0],"AutoTrigger":true,"AutoDelay":5000000}]`)
 	case "lengths":
@@ -201,6 +209,7 @@ func c11wRun(c c11wCase) (v vVerdict) {
 	malformedSent := false // the server may close the connection from here on
 	closed := false
 	validAfterMalformed := 0
+	idled := false
 	var pending []int // indices of requests whose answer has not been read yet
 	history := func(upto int) string {
 		var s []string
@@ -250,6 +259,11 @@ func c11wRun(c c11wCase) (v vVerdict) {
 	for i, r := range c.Reqs {
 		if closed {
 			break
+		}
+		if r.Kind == "idle" {
+			time.Sleep(2300 * time.Millisecond)
+			idled = true
+			continue
 		}
 		text := c11wText(r.Kind, i+1)
 		cut := 0
@@ -324,6 +338,9 @@ func c11wRun(c c11wCase) (v vVerdict) {
 	}
 	if closed {
 		v.Classes = append(v.Classes, "server-closed-connection")
+	}
+	if idled {
+		v.Classes = append(v.Classes, "idle-across-a-heartbeat-after-a-self-ended-source")
 	}
 	return v
 }
